@@ -44,17 +44,26 @@ ReadReset(bytes, startPos, b, frames) ==
   /\ got' = <<>> /\ need' = -1 /\ acc' = <<>> /\ borrows' = <<>> /\ allocs' = <<>>
   /\ rstatus' = "run" /\ rdetail' = <<>> /\ rfaults' = 0
 
-SysInit(Cases) ==
-  /\ case \in Cases
-  /\ SerInitWith(ProgramOf(case), StartOf(case))
+\* The program and the reference encoding are computed in the first step (phase "load"),
+\* not in the initial predicate: TLC enumerates initial states with one thread only.
+SysInitRest ==
+  /\ SerInitWith(<<>>, StartOf(case))
   /\ ReadIdle
-  /\ phase = "ser" /\ fullRes = [st |-> "none"]
-  /\ exp = ExpectedOut(case)
+  /\ phase = "load" /\ fullRes = [st |-> "none"]
+  /\ exp = <<>>
+SysInit(Cases) == case \in Cases /\ SysInitRest
+
+Load ==
+  /\ phase = "load"
+  /\ prog' = ProgramOf(case) /\ exp' = ExpectedOut(case) /\ phase' = "ser"
+  /\ UNCHANGED <<pc, pos, pos0, out, status, detail, padleft, cur, inwrite, rows, path, starts, fake, src, faults>>
+  /\ UNCHANGED <<readVars, case, fullRes>>
 
 ResRec == [st |-> rstatus, detail |-> rdetail, val |-> IF rstatus = "ok" THEN vals ELSE <<>>,
            rpos |-> rpos, allocs |-> allocs]
 
 SysNext ==
+  \/ Load
   \/ /\ phase = "ser" /\ ~SerDone /\ SerNext /\ UNCHANGED <<readVars, sysVars>>
   \/ /\ phase = "ser" /\ SerDone
      /\ IF status = "ok"
@@ -74,7 +83,7 @@ SysNext ==
 (* Invariants.                                                             *)
 
 \* C07: WriterWithPos.pos counts exactly the bytes handed to the sink
-PosCounts == (status \in {"run", "ok"} /\ ~inwrite) => pos = pos0 + Len(out)
+PosCounts == (phase # "load" /\ status \in {"run", "ok"} /\ ~inwrite) => pos = pos0 + Len(out)
 
 \* C07: every zero-copy block starts on a multiple of its unit, which is a power of two
 \*      no smaller than the native alignment of what it holds
@@ -87,7 +96,7 @@ UnitsSane ==
 \* C06: the machine's output is the reference encoding
 OutIsEncode == (phase # "ser" /\ status = "ok") => out = exp
 \* C13: what the sink accepted is always a prefix of the fault-free output
-OutIsPrefix == Len(out) <= Len(exp) /\ out = SubSeq(exp, 1, Len(out))
+OutIsPrefix == phase # "load" => Len(out) <= Len(exp) /\ out = SubSeq(exp, 1, Len(out))
 
 \* C01 + C07 (consumed count)
 FullRoundTrip ==
